@@ -69,10 +69,18 @@ func (l *RateLimiter) Acquire(ctx context.Context, tokens int) (err error) {
 	for {
 		now = time.Now().UnixNano()
 		last = atomic.LoadInt64(&l.next)
-		permits := float64(now-last)/l.interval - float64(tokens)
+		// a caller that would have to wait longer than the timeout is
+		// rejected before it is charged: it admits nothing
+		if l.timeout > 0 && time.Duration(last-now) > l.timeout {
+			return core.ErrTimeout
+		}
+		// what has accumulated is capped to the burst before this call is
+		// charged, otherwise the call itself would be free after an idle period
+		permits := float64(now-last) / l.interval
 		if permits > l.maxPermits {
 			permits = l.maxPermits
 		}
+		permits -= float64(tokens)
 		if atomic.CompareAndSwapInt64(&l.next, last, now-int64(permits*l.interval)) {
 			break
 		}
@@ -81,13 +89,12 @@ func (l *RateLimiter) Acquire(ctx context.Context, tokens int) (err error) {
 		return
 	}
 	delay := time.Duration(last - now)
-	if l.timeout > 0 && delay > l.timeout {
-		return core.ErrTimeout
-	}
-	ctx, cancel := context.WithTimeout(ctx, delay)
-	<-ctx.Done()
+	wait, cancel := context.WithTimeout(ctx, delay)
+	<-wait.Done()
 	cancel()
-	return
+	// nil when the delay has passed; the caller's own context may have ended
+	// first, and then it has not been admitted
+	return ctx.Err()
 }
 
 // IOHandler for RateLimiter.
